@@ -233,7 +233,8 @@ Proof.
     [intros fk Hfk t Ht g [] | exact H |].
   repeat split; try assumption.
   intros fk' Hfk' Hcall t' Ht'.
-  unfold wiclosed in Hwi. rewrite forallb_forall in Hwi. specialize (Hwi _ (mem_In _ _ Hcall)).
+  unfold wiclosed in Hwi. apply andb_prop in Hwi. destruct Hwi as [_ Hwi].
+  rewrite forallb_forall in Hwi. specialize (Hwi _ (mem_In _ _ Hcall)).
   unfold wfield_ok in Hwi.
   pose proof Hwf' as Hwf''. unfold kids_wf in Hwf''. rewrite forallb_forall in Hwf''. specialize (Hwf'' fk' Hfk').
   destruct (assoc (fst fk') (w_fields d)) as [cs|] eqn:Efld; [|discriminate].
@@ -282,6 +283,22 @@ Proof.
   destruct (dsclosed_parts ds Hd) as [Hf _]. apply (Hf c b). apply assoc_In. exact E.
 Qed.
 
+(* worker-derived, as a proposition: seeded from a draw this hook made from the worker's global RNG, or one of the
+   worker's process-global generators themselves (never OS entropy) *)
+Definition WD (lo hi : nat) (q : prov) : Prop :=
+  (exists j, q = Wrk j /\ lo <= j /\ j < hi) \/ (exists g, q = Glob g /\ not_fresh g = true).
+
+Lemma WD_widen : forall lo hi lo' hi' q, WD lo hi q -> lo' <= lo -> hi <= hi' -> WD lo' hi' q.
+Proof.
+  intros lo hi lo' hi' q [[j [E [H1 H2]]]|H] Hl Hh; [left; exists j; repeat split; [exact E|lia|lia] | right; exact H].
+Qed.
+
+Lemma WD_worker_derived : forall lo hi q, WD lo hi q -> worker_derived lo hi q = true.
+Proof.
+  intros lo hi q [[j [E [H1 H2]]]|[g [E Hg]]]; subst q; simpl; [|exact Hg].
+  apply andb_true_iff. split; [apply Nat.leb_le | apply Nat.ltb_lt]; lia.
+Qed.
+
 Section Thm1.
   Variables (tbl ctbl : table) (wt : wtable) (ds : dsdesc).
   Hypothesis Hc : forallb (closed tbl) tbl = true.
@@ -293,7 +310,7 @@ Section Thm1.
     swf tbl ctbl wt s = true -> fwd_known ds s = true ->
     forall k, let r := worker_init tbl ctbl wt ds k s in
               k <= fst r
-              /\ forall q, In q (stack_draws tbl ctbl wt (snd r)) -> exists j, q = Wrk j /\ k <= j /\ j < fst r.
+              /\ forall q, In q (stack_draws tbl ctbl wt (snd r)) -> WD k (fst r) q.
 
   Lemma wi_ok_all : forall s, wi_ok s.
   Proof.
@@ -304,7 +321,7 @@ Section Thm1.
       intros q Hq. cbn [stack_draws] in Hq. apply in_flat_map in Hq. destruct Hq as [t' [Ht' Hq]].
       apply in_map_iff in Ht'. destruct Ht' as [t [E Ht]]. subst t'.
       cbn [swf] in Hwf. rewrite forallb_forall in Hwf.
-      exists k. split; [|lia]. eapply (closed_table_deterministic_proof ctbl Hcc t (Hwf t Ht)); eauto.
+      left. exists k. split; [|lia]. eapply (closed_table_deterministic_proof ctbl Hcc t (Hwf t Ht)); eauto.
     - (* wrapper *)
       cbn [swf] in Hwf. apply andb_prop in Hwf. destruct Hwf as [Hw Hin]. cbn [fwd_known] in Hk.
       unfold wwf in Hw. destruct (wlookup wt c) as [d|] eqn:El; [|discriminate].
@@ -317,18 +334,23 @@ Section Thm1.
       rewrite forallb_forall in Hwi. pose proof (Hwi d Hd) as Hwd.
       destruct (wobj_after_wi tbl d Hc Hwd kids k k1 kids' Hw Ef) as [Hle1 _].
       split; [lia|].
-      intros q Hq. cbn [stack_draws] in Hq. rewrite El in Hq. apply in_app_or in Hq. destruct Hq as [Hq|Hq].
-      + destruct (called_draws_after_wi tbl d Hc Hwd kids k k1 kids' Hw Ef q Hq) as [j [E [H1 H2]]].
-        exists j. split; [exact E|lia].
-      + destruct (IHq q Hq) as [j [E [H1 H2]]]. exists j. split; [exact E|lia].
+      intros q Hq. cbn [stack_draws] in Hq. apply in_app_or in Hq. destruct Hq as [Hq|Hq].
+      + (* the wrapper's own draws on the unseeded path *)
+        unfold own_draws in Hq. rewrite El in Hq. apply in_map_iff in Hq. destruct Hq as [g [E Hg]].
+        right. exists g. split; [symmetry; exact E|].
+        unfold wiclosed in Hwd. apply andb_prop in Hwd. destruct Hwd as [Hnf _].
+        rewrite forallb_forall in Hnf. exact (Hnf g Hg).
+      + rewrite El in Hq. apply in_app_or in Hq. destruct Hq as [Hq|Hq].
+        * destruct (called_draws_after_wi tbl d Hc Hwd kids k k1 kids' Hw Ef q Hq) as [j [E [H1 H2]]].
+          left. exists j. split; [exact E|lia].
+        * eapply WD_widen; [apply IHq; exact Hq | lia | lia].
     - (* forwarding class *)
       cbn [fwd_known] in Hk. apply andb_prop in Hk. destruct Hk as [Hkc Hkl].
       rewrite worker_init_fwd. rewrite (forwards_known ds c Hds Hkc).
       cbn [swf] in Hwf.
       assert (Hlist : forall l, Forall wi_ok l -> forallb (swf tbl ctbl wt) l = true -> forallb (fwd_known ds) l = true ->
                 forall k, let r := wi_list tbl ctbl wt ds k l in
-                          k <= fst r /\ forall q, In q (flat_map (stack_draws tbl ctbl wt) (snd r)) ->
-                                                  exists j, q = Wrk j /\ k <= j /\ j < fst r).
+                          k <= fst r /\ forall q, In q (flat_map (stack_draws tbl ctbl wt) (snd r)) -> WD k (fst r) q).
       { clear. induction l as [|x l IHl]; intros HF Hw Hk k.
         - cbn. split; [lia|]. intros q [].
         - inversion HF as [|? ? Hx HFl]; subst.
@@ -340,8 +362,8 @@ Section Thm1.
           specialize (IHl HFl Hwl Hkl k1). cbv zeta in IHl.
           destruct (wi_list tbl ctbl wt ds k1 l) as [k2 r] eqn:El. cbn [fst snd] in *. destruct IHl as [Hle2 Hq2].
           split; [lia|]. intros q Hq. cbn [flat_map] in Hq. apply in_app_or in Hq. destruct Hq as [Hq|Hq].
-          + destruct (Hq1 q Hq) as [j [E [H1 H2]]]. exists j. split; [exact E|lia].
-          + destruct (Hq2 q Hq) as [j [E [H1 H2]]]. exists j. split; [exact E|lia]. }
+          + eapply WD_widen; [apply Hq1; exact Hq | lia | lia].
+          + eapply WD_widen; [apply Hq2; exact Hq | lia | lia]. }
       specialize (Hlist l IH Hwf Hkl k). cbv zeta in Hlist.
       destruct (wi_list tbl ctbl wt ds k l) as [k' r] eqn:El. cbn [fst snd] in *. exact Hlist.
   Qed.
@@ -354,11 +376,27 @@ Theorem after_worker_init_no_copied_slot_proof : forall tbl ctbl wt ds,
     dsclosed ds = true ->
     forall s, swf tbl ctbl wt s = true -> fwd_known ds s = true ->
     forall k q, In q (stack_draws tbl ctbl wt (snd (worker_init tbl ctbl wt ds k s))) ->
-                is_wrk_in k (fst (worker_init tbl ctbl wt ds k s)) q = true.
+                worker_derived k (fst (worker_init tbl ctbl wt ds k s)) q = true.
 Proof.
   intros tbl ctbl wt ds Hc Hcc Hwi Hds s Hwf Hk k q Hq.
   destruct (wi_ok_all tbl ctbl wt ds Hc Hcc Hwi Hds s Hwf Hk k) as [_ H].
-  destruct (H q Hq) as [j [E [H1 H2]]]. subst q. apply wrk_is_wrk_in; assumption.
+  apply WD_worker_derived. exact (H q Hq).
+Qed.
+
+(* the transforms' and collators' generators in particular: what is not a process-global source is Wrk j in the window *)
+Theorem after_worker_init_slots_are_fresh_proof : forall tbl ctbl wt ds,
+    forallb (closed tbl) tbl = true ->
+    forallb (closed ctbl) ctbl = true ->
+    forallb (wiclosed tbl) wt = true ->
+    dsclosed ds = true ->
+    forall s, swf tbl ctbl wt s = true -> fwd_known ds s = true ->
+    forall k q, In q (stack_draws tbl ctbl wt (snd (worker_init tbl ctbl wt ds k s))) ->
+                (forall g, q <> Glob g) ->
+                is_wrk_in k (fst (worker_init tbl ctbl wt ds k s)) q = true.
+Proof.
+  intros tbl ctbl wt ds Hc Hcc Hwi Hds s Hwf Hk k q Hq Hng.
+  destruct (wi_ok_all tbl ctbl wt ds Hc Hcc Hwi Hds s Hwf Hk k) as [_ H].
+  destruct (H q Hq) as [[j [E [H1 H2]]]|[g [E _]]]; [subst q; apply wrk_is_wrk_in; assumption | exfalso; exact (Hng g E)].
 Qed.
 
 (* ---------------------------------------------------------------- *)
@@ -580,9 +618,11 @@ Section Thm3.
       specialize (IH Hin k1). cbv zeta in IH.
       destruct (worker_init tbl ctbl wt ds k1 inner) as [k2 inner'] eqn:Ei. cbn [fst snd] in *.
       cbn [stack_units wobj_units]. rewrite El.
+      change (Upds k k2 ([own_draws wt c] ++ kids_units tbl (w_calls d) kids ++ stack_units tbl ctbl wt inner)
+                        (([own_draws wt c] ++ kids_units tbl (w_calls d) kids') ++ stack_units tbl ctbl wt inner')).
       eapply Us_trans.
-      + apply Upds_suffix. eapply (wi_fields_Upds tbl Hc (w_fields d) (w_calls d)); eauto.
-      + apply Upds_prefix. exact IH.
+      + apply Upds_frame. eapply (wi_fields_Upds tbl Hc (w_fields d) (w_calls d)); eauto.
+      + rewrite app_assoc. apply Upds_prefix. exact IH.
     - rewrite worker_init_fwd. destruct (forwards ds c); cbn [fst snd]; [|apply Upds_refl].
       cbn [swf] in Hwf.
       assert (Hlist : forall l, Forall wi_sweep l -> forallb (swf tbl ctbl wt) l = true ->
@@ -640,7 +680,8 @@ Lemma stack_units_concat : forall tbl ctbl wt s, List.concat (stack_units tbl ct
 Proof.
   intros tbl ctbl wt. induction s as [cs | [c kids] inner IH | c l IH] using dstack_ind'.
   - cbn. rewrite app_nil_r. reflexivity.
-  - cbn [stack_units stack_draws wobj_units]. rewrite concat_app. rewrite IH. f_equal.
+  - cbn [stack_units stack_draws wobj_units]. rewrite concat_app. cbn [List.concat]. rewrite IH.
+    rewrite <- app_assoc. f_equal. f_equal.
     destruct (wlookup wt c); [apply kids_units_concat | reflexivity].
   - cbn [stack_units stack_draws]. induction l as [|x l IHl]; [reflexivity|].
     inversion IH; subst. cbn [flat_map]. rewrite concat_app. rewrite H1. f_equal. apply IHl. exact H2.
@@ -853,7 +894,8 @@ Proof.
   unfold kids_units. cbn [flat_map]. fold (kids_units tbl (w_calls d) kidsA). fold (kids_units tbl (w_calls d) kidsB).
   rewrite (IH Hl). f_equal. rewrite <- En.
   destruct (mem (fst fa) (w_calls d)) eqn:Ecall; [|reflexivity].
-  unfold wiclosed in Hwi. rewrite forallb_forall in Hwi. specialize (Hwi _ (mem_In _ _ Ecall)).
+  unfold wiclosed in Hwi. apply andb_prop in Hwi. destruct Hwi as [_ Hwi].
+  rewrite forallb_forall in Hwi. specialize (Hwi _ (mem_In _ _ Ecall)).
   unfold wfield_ok in Hwi. rewrite Hcs in Hwi.
   clear IH HS Hwf Hl. induction Hm as [|a b tsA tsB [He Hd] Hm IHm]; [reflexivity|].
   simpl in Hmw. apply andb_prop in Hmw. destruct Hmw as [Ha Hts].
@@ -918,7 +960,7 @@ Section Thm2.
       destruct (worker_init tbl ctbl wt ds k1 inner) as [k2 innerA'] eqn:EiA.
       destruct (worker_init tbl ctbl wt ds k1 inner2) as [k2' innerB'] eqn:EiB. cbn [fst snd] in *.
       destruct IH as [Ek2 Eu]. split; [exact Ek2|].
-      cbn [stack_units wobj_units]. rewrite El. rewrite Eu. f_equal.
+      cbn [stack_units wobj_units]. rewrite El. rewrite Eu. f_equal. f_equal.
       destruct (wlookup_In _ _ _ El) as [Hd _]. rewrite forallb_forall in Hwi.
       destruct (wi_fields_spec tbl (w_fields d) (w_wi d) (fun _ _ => False) k kids k k1 kidsA' Hw (le_n k)) as [_ [Hwf' _]];
         [intros fk Hfk t Ht g [] | exact EfA |].
@@ -966,6 +1008,109 @@ Proof.
   intros tbl ctbl wt ds Hc Hcc Hwi Hds s1 s2 He Hwf Hk k.
   destruct (wi_shape_all tbl ctbl wt ds Hc Hcc Hwi Hds s1 s2 He Hwf Hk k) as [E1 E2].
   split; [exact E1|]. split; [exact E2|]. rewrite <- !stack_units_concat. rewrite E2. reflexivity.
+Qed.
+
+(* ---------------------------------------------------------------- *)
+(* Theorem 3 without the `inherited` premise: whatever the slots held before (copies inherited from the parent,      *)
+(* generators of an earlier worker_init, injected per-item generators), over closed tables every worker seed is owned *)
+(* by at most one unit.  Proof: the units after worker_init do not depend on the slots before (Theorem 2), so they   *)
+(* are those of the ERASED stack, which is inherited.                                                                *)
+(* ---------------------------------------------------------------- *)
+Lemma erase_erase : forall t, erase (erase t) = erase t.
+Proof.
+  induction t as [c s kids IH] using tree_ind'. simpl. f_equal. rewrite map_map.
+  apply map_ext_in. intros fk Hfk. cbn [fst snd]. f_equal. rewrite map_map.
+  rewrite Forall_forall in IH. specialize (IH fk Hfk). rewrite Forall_forall in IH.
+  apply map_ext_in. intros k Hk. apply IH. exact Hk.
+Qed.
+
+Lemma werase_werase : forall w, werase (werase w) = werase w.
+Proof.
+  intros [c kids]. simpl. f_equal. rewrite map_map. apply map_ext. intros fk. cbn [fst snd]. f_equal.
+  rewrite map_map. apply map_ext. intros k. apply erase_erase.
+Qed.
+
+Lemma serase_serase : forall s, serase (serase s) = serase s.
+Proof.
+  induction s as [cs | w inner IH | c l IH] using dstack_ind'; simpl.
+  - f_equal. rewrite map_map. apply map_ext. intros t. apply erase_erase.
+  - rewrite werase_werase, IH. reflexivity.
+  - f_equal. rewrite map_map. apply map_ext_in. intros x Hx. rewrite Forall_forall in IH. apply IH. exact Hx.
+Qed.
+
+Lemma wwf_werase : forall tbl wt w, wwf tbl wt (werase w) = wwf tbl wt w.
+Proof.
+  intros tbl wt [c kids]. simpl. destruct (wlookup wt c) as [d|]; [|reflexivity].
+  unfold kids_wf. rewrite forallb_map'. apply forallb_ext_in. intros fk Hfk. cbn [fst snd].
+  destruct (assoc (fst fk) (w_fields d)) as [cs|]; [|reflexivity].
+  rewrite forallb_map'. apply forallb_ext_in. intros k Hk. rewrite cls_of_erase, wf_erase. reflexivity.
+Qed.
+
+Lemma swf_serase : forall tbl ctbl wt s, swf tbl ctbl wt (serase s) = swf tbl ctbl wt s.
+Proof.
+  intros tbl ctbl wt. induction s as [cs | w inner IH | c l IH] using dstack_ind'; simpl.
+  - rewrite forallb_map'. apply forallb_ext_in. intros t _. apply wf_erase.
+  - rewrite wwf_werase, IH. reflexivity.
+  - rewrite forallb_map'. apply forallb_ext_in. intros x Hx. rewrite Forall_forall in IH. apply IH. exact Hx.
+Qed.
+
+Lemma draws_erase_no_wrk : forall tbl t q, In q (draws tbl (erase t)) -> is_wrk q = false.
+Proof.
+  intros tbl t. induction t as [c s kids IH] using tree_ind'. intros q Hq. simpl in Hq.
+  destruct (lookup tbl c) as [d|]; [|destruct Hq].
+  apply in_app_or in Hq. destruct Hq as [Hq|Hq]; [destruct (d_draw_self d); destruct Hq|].
+  apply in_app_or in Hq. destruct Hq as [Hq|Hq].
+  - apply in_map_iff in Hq. destruct Hq as [g [E _]]. subst q. reflexivity.
+  - apply in_flat_map in Hq. destruct Hq as [fk' [Hfk' Hq]].
+    apply in_map_iff in Hfk'. destruct Hfk' as [fk [E Hfk]]. subst fk'. cbn [fst snd] in Hq.
+    destruct (mem (fst fk) (d_calls d)); [|destruct Hq].
+    apply in_flat_map in Hq. destruct Hq as [k' [Hk' Hq]].
+    apply in_map_iff in Hk'. destruct Hk' as [k0 [E Hk0]]. subst k'.
+    rewrite Forall_forall in IH. specialize (IH fk Hfk). rewrite Forall_forall in IH. exact (IH k0 Hk0 q Hq).
+Qed.
+
+Lemma inherited_serase : forall tbl ctbl wt s, inherited tbl ctbl wt (serase s) = true.
+Proof.
+  intros tbl ctbl wt s. unfold inherited. apply forallb_forall. intros u Hu. apply forallb_forall. intros q Hq.
+  apply negb_true_iff. revert u Hu q Hq.
+  induction s as [cs | [c kids] inner IH | c l IH] using dstack_ind'; intros u Hu q Hq.
+  - cbn [serase stack_units] in Hu. destruct Hu as [E|[]]. subst u.
+    apply in_flat_map in Hq. destruct Hq as [t' [Ht' Hq]]. apply in_map_iff in Ht'. destruct Ht' as [t [E _]]. subst t'.
+    eapply draws_erase_no_wrk; eauto.
+  - cbn [serase werase stack_units wobj_units] in Hu. apply in_app_or in Hu. destruct Hu as [Hu|Hu]; [|eapply IH; eauto].
+    destruct Hu as [E|Hu].
+    + subst u. unfold own_draws in Hq. destruct (wlookup wt c); [|destruct Hq].
+      apply in_map_iff in Hq. destruct Hq as [g [E _]]. subst q. reflexivity.
+    + destruct (wlookup wt c) as [d|]; [|destruct Hu].
+      unfold kids_units in Hu. apply in_flat_map in Hu. destruct Hu as [fk' [Hfk' Hu]].
+      apply in_map_iff in Hfk'. destruct Hfk' as [fk [E _]]. subst fk'. cbn [fst snd] in Hu.
+      destruct (mem (fst fk) (w_calls d)); [|destruct Hu].
+      apply in_map_iff in Hu. destruct Hu as [t' [E Ht']]. subst u.
+      apply in_map_iff in Ht'. destruct Ht' as [t [E _]]. subst t'.
+      eapply draws_erase_no_wrk; eauto.
+  - cbn [serase stack_units] in Hu. apply in_flat_map in Hu. destruct Hu as [x' [Hx' Hu]].
+    apply in_map_iff in Hx'. destruct Hx' as [x [E Hx]]. subst x'.
+    rewrite Forall_forall in IH. eapply (IH x Hx); eauto.
+Qed.
+
+Theorem worker_seed_owned_by_one_unit_any_start_proof : forall tbl ctbl wt ds,
+    forallb (closed tbl) tbl = true ->
+    forallb (closed ctbl) ctbl = true ->
+    forallb (wiclosed tbl) wt = true ->
+    dsclosed ds = true ->
+    forall s, swf tbl ctbl wt s = true -> fwd_known ds s = true ->
+    forall k,
+      let r := worker_init tbl ctbl wt ds k s in
+      (forall j, owners j (stack_units tbl ctbl wt (snd r)) <= 1)
+      /\ (forall u, In u (stack_units tbl ctbl wt (snd r)) -> forall j, In (Wrk j) u ->
+                    k <= j /\ j < fst r /\ forall q, In q u -> q = Wrk j).
+Proof.
+  intros tbl ctbl wt ds Hc Hcc Hwi Hds s Hwf Hk k r.
+  destruct (wi_shape_all tbl ctbl wt ds Hc Hcc Hwi Hds s (serase s) (eq_sym (serase_serase s)) Hwf Hk k) as [E1 E2].
+  assert (Hwf' : swf tbl ctbl wt (serase s) = true) by (rewrite swf_serase; exact Hwf).
+  pose proof (worker_seed_owned_by_one_unit_proof tbl ctbl wt ds Hc Hcc (serase s) Hwf'
+                (inherited_serase tbl ctbl wt s) k) as H.
+  cbv zeta in H. unfold r. rewrite E1, E2. exact H.
 Qed.
 
 (* ---------------------------------------------------------------- *)
